@@ -53,6 +53,35 @@ func factRel(atom *Term, pol bool) (relFact, bool) {
 	}
 	switch atom.Op {
 	case "bin":
+		// t.Compare(u) against -1 / 0 / 1: the order relation between t and u
+		if len(atom.Args) == 2 {
+			for side := 0; side < 2; side++ {
+				cmp, k := strip(atom.Args[side]), strip(atom.Args[1-side])
+				c, isC := k.Int()
+				if cmp.Op != "call" || cmp.Name != "(time.Time).Compare" || len(cmp.Args) != 2 || !isC || c < -1 || c > 1 {
+					continue
+				}
+				// region of v = Compare(t,u) in {-1,0,1} that the atom describes
+				var region uint8
+				for _, v := range []int64{-1, 0, 1} {
+					holds := false
+					switch {
+					case atom.Name == "==":
+						holds = v == c
+					case atom.Name == "<" && side == 0:
+						holds = v < c
+					case atom.Name == "<" && side == 1:
+						holds = c < v
+					default:
+						return relFact{}, false
+					}
+					if holds {
+						region |= map[int64]uint8{-1: rLT, 0: rEQ, 1: rGT}[v]
+					}
+				}
+				return relFact{strip(cmp.Args[0]), strip(cmp.Args[1]), pick(region)}, true
+			}
+		}
 		switch atom.Name {
 		case "==":
 			return relFact{strip(atom.Args[0]), strip(atom.Args[1]), pick(rEQ)}, true
